@@ -4,34 +4,44 @@ package utils
 
 // Contracts for helpers (comment-only; read by /verif/govc).
 
-// ParameterBag is abstracted by a version counter: reads are functions of (bag, key, version); every
-// mutator bumps the version. The map-and-mutex implementation is trusted to behave like a map.
-//@ ghost field (*ParameterBag).$bagver int
-
-//@ func (*ParameterBag).Peek(key, _default)
-//@   trusted "map-backed parameter bag abstracted as a function of (bag, key, version)"
-//@   pure
-//@   ensures result == uf_s_peek(p, key, p.$bagver)
-
-//@ func (*ParameterBag).Has(key)
-//@   trusted "map-backed parameter bag abstracted as a function of (bag, key, version)"
-//@   pure
-//@   ensures result == uf_b_has(p, key, p.$bagver)
+// ParameterBag: a mutex-protected Go map from names to value lists; the contracts speak about the map itself
+// (p.parameters), no abstraction in between. The value of a name is the last element of its list.
+//@ macro bagHas(p, k)  = maphas(p.parameters, k)
+//@ macro bagGot(p, k)  = maphas(p.parameters, k) && len(mapval(p.parameters, k)) > 0
+//@ macro bagLast(p, k) = mapval(p.parameters, k)[len(mapval(p.parameters, k)) - 1]
+//@ macro bagPeek(p, k) = bagGot(p, k) ? bagLast(p, k) : ""
 
 //@ func (*ParameterBag).Get(key, _default)
-//@   trusted "map-backed parameter bag abstracted as a function of (bag, key, version)"
-//@   pure
-//@   ensures result1 == uf_b_has(p, key, p.$bagver) && (result1 ==> result0 == uf_s_peek(p, key, p.$bagver))
+//@   props C05, C17, C06
+//@   requires p != nil
+//@   modifies nothing
+//@   ensures [C05.bag.get] result1 == bagGot(p, key) && (result1 ==> result0 == bagLast(p, key)) && (!result1 ==> result0 == (len(_default) > 0 ? _default[0] : ""))
+
+//@ func (*ParameterBag).Peek(key, _default)
+//@   props C05, C17, C06
+//@   requires p != nil
+//@   modifies nothing
+//@   ensures [C05.bag.peek] result == (bagGot(p, key) ? bagLast(p, key) : (len(_default) > 0 ? _default[0] : ""))
+
+//@ func (*ParameterBag).Has(key)
+//@   props C05, C17, C06
+//@   requires p != nil
+//@   modifies nothing
+//@   ensures [C17.bag.has] result == bagHas(p, key)
 
 //@ func (*ParameterBag).Remove(key)
-//@   trusted "map-backed parameter bag abstracted as a function of (bag, key, version)"
-//@   modifies p.$bagver
-//@   ensures !uf_b_has(p, key, p.$bagver)
+//@   props C05
+//@   requires p != nil
+//@   modifies MapOf(p.parameters)
+//@   ensures [C05.bag.remove] !bagHas(p, key) && forall k string :: k != key ==> maphas(p.parameters, k) == old(maphas(p.parameters, k)) && mapval(p.parameters, k) == old(mapval(p.parameters, k))
 
 //@ func (*ParameterBag).Set(key, value)
-//@   trusted "map-backed parameter bag abstracted as a function of (bag, key, version)"
-//@   modifies p.$bagver
-//@   ensures uf_b_has(p, key, p.$bagver) && uf_s_peek(p, key, p.$bagver) == value
+//@   props C17, C16
+//@   requires p != nil
+//@   assumes p.parameters != nil    // a bag is built by NewParameterBag, which installs a non-nil map; Replace is never called with nil in this module
+//@   modifies MapOf(p.parameters)
+//@   ensures [C17.bag.set] bagGot(p, key) && len(mapval(p.parameters, key)) == 1 && bagLast(p, key) == value
+//@   ensures [C17.bag.setothers] forall k string :: k != key ==> maphas(p.parameters, k) == old(maphas(p.parameters, k)) && mapval(p.parameters, k) == old(mapval(p.parameters, k))
 
 // the canonical form of a request path: the empty path is "/", every other path is rooted and goes through path.Clean
 // (dot segments, doubled slashes), and a trailing slash of the input is kept. What path.Clean itself computes is the
@@ -151,13 +161,25 @@ package utils
 //@     assert [C04.idurlsafe,C20.idurlsafe] $enc == base64.RawURLEncoding && $src == r && len(r) == 18
 
 //@ func NewParameterBag(parameters)
-//@   trusted "map-backed parameter bag abstracted as a function of (bag, key, version)"
-//@   fresh
-//@   ensures result != nil
+//@   props C17, C16
+//@   modifies nothing
+//@   ensures [C17.bag.new] result != nil && fresh(result) && result.parameters != nil && (parameters != nil ==> result.parameters == parameters) && (parameters == nil ==> fresh(result.parameters))
+// All hands out a copy: the same names, and for each name a list of the same length
 //@ func (*ParameterBag).All()
-//@   trusted "map-backed parameter bag abstracted as a function of (bag, key, version); every stored value list is non-empty (Set/Add store one value; Replace/With are only called with maps taken from other bags or literals)"
-//@   pure
-//@   ensures forall k string :: maphas(result, k) ==> len(mapval(result, k)) > 0
+//@   props C17, C16
+//@   requires p != nil
+//@   modifies nothing
+//@   opt splitappend
+//@   loop 1 invariant _tmp != nil && fresh(_tmp) && forall k string :: maphas(_tmp, k) ==> maphas(p.parameters, k) && len(mapval(_tmp, k)) == len(mapval(p.parameters, k))
+//@   ensures [C17.bag.all] result != nil && fresh(result) && forall k string :: maphas(result, k) ==> maphas(p.parameters, k) && len(mapval(result, k)) == len(mapval(p.parameters, k))
+// With copies every list of the argument into the bag, under the argument's names
 //@ func (*ParameterBag).With(parameters)
-//@   trusted "map-backed parameter bag abstracted as a function of (bag, key, version)"
-//@   modifies p.$bagver
+//@   props C17, C16
+//@   requires p != nil
+//@   assumes p.parameters != nil && p.parameters != parameters   // built by NewParameterBag; a bag is never merged with its own map
+//@   modifies MapOf(p.parameters)
+//@   opt splitappend
+//@   loop 1 invariant forall k string :: visited(k) && maphas(parameters, k) ==> maphas(p.parameters, k) && len(mapval(p.parameters, k)) == len(mapval(parameters, k))
+//@   loop 1 invariant forall k string :: maphas(p.parameters, k) ==> old(maphas(p.parameters, k)) && mapval(p.parameters, k) == old(mapval(p.parameters, k)) || maphas(parameters, k) && len(mapval(p.parameters, k)) == len(mapval(parameters, k))
+//@   ensures [C17.bag.with] forall k string :: maphas(parameters, k) ==> maphas(p.parameters, k) && len(mapval(p.parameters, k)) == len(mapval(parameters, k))
+//@   ensures [C17.bag.withkeeps] forall k string :: maphas(p.parameters, k) ==> old(maphas(p.parameters, k)) && mapval(p.parameters, k) == old(mapval(p.parameters, k)) || maphas(parameters, k) && len(mapval(p.parameters, k)) == len(mapval(parameters, k))
